@@ -651,7 +651,8 @@ impl Property for C10 {
             c.include_paths[0].push('/');
         }
         c.ignore_include = ignore;
-        c.strip_comments = false;
+        // comments are not tokens: the model is the same with and without strip_comments
+        c.strip_comments = rng.chance(1, 3);
         c.hash_seed = rng.next();
         for _ in 0..rng.below(3) {
             let name = if rng.coin() { format!("M{}", rng.below(5)) } else { format!("G{}", rng.below(4)) };
@@ -1008,6 +1009,9 @@ impl Property for C10 {
         }
         if call.ignore_include {
             rep.probe("ignore_include_runs", 1);
+        }
+        if call.strip_comments {
+            rep.probe("strip_comments_runs", 1);
         }
         match &mres {
             Err(MErr::IncludeLine) => rep.probe("include_line_expected", 1),
